@@ -81,6 +81,20 @@ def eval_case(case):
         return fails + ["get_date_type_respin(%r) raised %s: %s" % (cid, type(exc).__name__, exc)]
     if tuple(got) != (date, x["ctype"], respin):
         fails.append("get_date_type_respin(%r) = %r, created from %r" % (cid, tuple(got), (date, x["ctype"], respin)))
+    if not fails:
+        # second calls: the same object with other compose fields creates the other id; decoding again decodes the same
+        ci.compose.respin = respin + 1
+        ci.compose.type = "nightly" if x["ctype"] != "nightly" else "test"
+        sfx2 = ".n" if x["ctype"] != "nightly" else ".t"
+        exp2 = exp[:exp.rindex("-") + 1] + "%s%s.%d" % (date, sfx2, respin + 1)
+        try:
+            cid2 = ci.create_compose_id()
+            if cid2 != exp2:
+                fails.append("create_compose_id() after changing type/respin on the same object = %r, expected %r" % (cid2, exp2))
+            if tuple(get_date_type_respin(cid)) != (date, x["ctype"], respin):
+                fails.append("get_date_type_respin(%r) differs when called again" % cid)
+        except Exception as exc:
+            fails.append("second create_compose_id()/decode raised %s: %s" % (type(exc).__name__, exc))
     # legacy (pre-0.3) composeinfo: date/type/respin exist only inside the id
     if case.get("legacy") and not fails:
         doc = {"header": {"version": case["legacy"]},
